@@ -94,7 +94,7 @@ theorem decExp_bounds (a b : Nat) (ha : a < 2 ^ 1025) (hb : b ≤ 2 ^ 1074) :
   repeat' split
   all_goals omega
 
-theorem floorDiv10_le (a b : Nat) (k : Int) (hb : 0 < b) : floorDiv10 a b k ≤ a * 10 ^ k.natAbs := by
+theorem floorDiv10_le (a b : Nat) (k : Int) (_hb : 0 < b) : floorDiv10 a b k ≤ a * 10 ^ k.natAbs := by
   unfold floorDiv10
   have hp : 0 < 10 ^ k.natAbs := Nat.pow_pos (by decide)
   split
